@@ -132,19 +132,28 @@ func drawUpd(t *rapid.T) Upd {
 func effectiveVerdict(u Upd, running map[string]string) ref.Tri {
 	flat := map[string]any{}
 	addressed(normDoc(u.Doc), "", flat)
-	api, touchesAPI := flat["webserver.api_disabled"]
-	if !touchesAPI || api != true {
-		return u.Verdict
+	api := running["webserver.api_disabled"] == "true"
+	if a, ok := flat["webserver.api_disabled"]; ok {
+		if b, isBool := a.(bool); isBool {
+			api = b
+		} else {
+			return u.Verdict // ill-typed: refused for that reason
+		}
 	}
 	dash := running["webserver.dashboard_disabled"] == "true"
 	if d, ok := flat["webserver.dashboard_disabled"]; ok {
-		dash = d == true
+		if b, isBool := d.(bool); isBool {
+			dash = b
+		} else {
+			return u.Verdict
+		}
 	}
-	if !dash {
+	if api && !dash {
+		// also reached without touching api_disabled: re-enabling the dashboard while the API stays disabled
 		return ref.MustNot
 	}
-	if strings.HasPrefix(u.Class, "api-disabled") {
-		return ref.Must
+	if strings.Contains(u.Class, "api-disabled-alone") && u.Verdict == ref.MustNot {
+		return ref.Must // the row's only flaw was the combination, and the combination is fine here
 	}
 	return u.Verdict
 }
